@@ -121,6 +121,7 @@ type SpecDB struct {
 	ZeroInit  map[string]*zeroInit // type string -> fact about a freshly allocated object ("this")
 	zeroDecls []zeroDecl
 	Immutable map[string]bool // type strings whose referents are never modified (refs are values)
+	Allocators map[string]bool // ghost vars that only grow (see `allocator`)
 	// Layered: ghost variables indexed (first key) by store layer; viewEq / viewEqOld / view(l) range over them
 	Layered []string
 	Errors    []string
@@ -147,7 +148,7 @@ type opaqueDecl struct {
 }
 
 func newSpecDB() *SpecDB {
-	return &SpecDB{Contracts: map[string]*Contract{}, Ghosts: map[string]*GhostFunc{}, GhostVars: map[string]*GhostVar{}, Immutable: map[string]bool{}, ZeroInit: map[string]*zeroInit{}}
+	return &SpecDB{Contracts: map[string]*Contract{}, Ghosts: map[string]*GhostFunc{}, GhostVars: map[string]*GhostVar{}, Immutable: map[string]bool{}, Allocators: map[string]bool{}, ZeroInit: map[string]*zeroInit{}}
 }
 
 var closureNameRe = regexp.MustCompile(`^(.+)__(\d+)$`)
@@ -181,7 +182,7 @@ func (db *SpecDB) parseSpecFile(file string, pkgPath string) {
 		s  string
 	}
 	var ents []ent
-	topKw := map[string]bool{"import": true, "package": true, "opaque": true, "immutable": true, "ghost": true, "axiom": true, "func": true, "loop": true, "zeroinit": true, "functype": true, "layered": true}
+	topKw := map[string]bool{"allocator": true, "import": true, "package": true, "opaque": true, "immutable": true, "ghost": true, "axiom": true, "func": true, "loop": true, "zeroinit": true, "functype": true, "layered": true}
 	for i, raw := range lines {
 		l := strings.TrimSpace(raw)
 		var body string
@@ -276,6 +277,15 @@ func (db *SpecDB) parseSpecFile(file string, pkgPath string) {
 				}
 			}
 			cur, curLoop = nil, nil
+		case "allocator":
+			// allocator g1, g2: ghost variables of type map[K]bool that only ever grow (identities handed out);
+			// like the heap's allocation counter they are exempt from frame clauses and are havocked monotonically at
+			// every call of a verified (non-assumed) contract
+			for _, n := range strings.Split(rest, ",") {
+				if n = strings.TrimSpace(n); n != "" {
+					db.Allocators[n] = true
+				}
+			}
 		case "zeroinit":
 			// zeroinit T : expr-over-this
 			i := strings.Index(rest, ":")
